@@ -21,7 +21,7 @@ MANIFEST = dict(
          "one step + 1e-9. Exact read-back through CPython's real floats is NOT a theorem: it is closed by enumerating all 65 536 words "
          "x 2 units on the real accessor on every run (both write paths). Tie: translator + differential correspondence on the real "
          "GeckoTempStructAccessor (floats converted to exact Fractions, model rationals compared as num/den) and the real "
-         "GeckoWaterHeater on stub spas of shipped cfg/log pairs. Session 4: heater states keep the user setpoint (SetpointG) on the other side of the current temperature than the regulated target (RealSetPointG), so a heater reading the wrong word shows in real_target_temperature and in the operation ladder.",
+         "GeckoWaterHeater on stub spas of shipped cfg/log pairs. Session 4: heater states keep the user setpoint (SetpointG) on the other side of the current temperature than the regulated target (RealSetPointG), so a heater reading the wrong word shows in real_target_temperature and in the operation ladder. The unit setting flips while every stored word stays unchanged, on the same live heater.",
     note="Trusted: Lean kernel; the translator (harness/gen_c14.py over py2lean; float literal -> exact value of the double, float op -> "
          "fl(...)); the correspondence harness. Assumed in float_bridge only: rounding is monotone with relative error <= 2^-52 in the "
          "range used (no underflow/overflow). int -> double conversion of a stored word is exact (< 2^53). A flag that exists but is off "
@@ -409,6 +409,34 @@ def check_heater(ctx, cfg, log, drop, lines, expect, combos):
                     okt = all(nearest_double_ok(exact_read("C" if units == "C" else "F", r), v) for r, v in zip((cur, tgt, setp), temps))
                     if not okt:
                         viol(ctx, f"heater-temps:{units}:{cur}:{tgt}:{'same' if setp == tgt else 'split'}", inp, "heater temperatures are the accessor values", temps)
+    # ---- the SAME live heater / accessors across a change of the unit setting that leaves every stored word as it is (the spa reports
+    #      only the units byte): the presentation must follow the unit at once
+    if "C" in unit_list and "F" in unit_list:
+        for cur, tgt in ((684, 684), (702, 666)):
+            seq_views = []
+            for units in ("C", "F", "C", "F"):
+                b = units_block(spa, units)
+                for key, w in (("DisplayedTempG", cur), ("RealSetPointG", tgt), ("SetpointG", tgt)):
+                    b = poke(b, acc[key], w)
+                if ha is not None:
+                    b = poke(b, ha, 0)
+                if ca is not None:
+                    b = poke(b, ca, 0)
+                spa.set_block(b)
+                try:
+                    temps = (heater.current_temperature, heater.real_target_temperature, heater.target_temperature)
+                    sym = heater.temperature_unit
+                except Exception as e:  # noqa
+                    temps, sym = f"raised {type(e).__name__}: {e}", None
+                ctx.count("evaluations")
+                u = "C" if units == "C" else "F"
+                okt = not isinstance(temps, str) and all(nearest_double_ok(exact_read(u, r), v) for r, v in zip((cur, tgt, tgt), temps))
+                seq_views.append((units, temps))
+                if not okt or sym != ("°C" if units == "C" else "°F"):
+                    viol(ctx, f"unit-flip:{units}:same-words", {"kind": "unit-flip", "cfg": cfg, "log": log, "drop": list(drop), "sequence": [x[0] for x in seq_views],
+                                                               "current_raw": cur, "target_raw": tgt},
+                         f"after the unit setting changed to {units} (stored words unchanged) the temperatures are presented in {units}", [temps, sym])
+                    break
     # is_on of the real binary sensors vs the model's isOn
     from geckolib.automation.sensors import GeckoBinarySensor
     for a in (ha, ca):
